@@ -322,6 +322,41 @@ class Report:
         return 1 if self.violations else 0
 
 
+class ScratchReport(Report):
+    """a Report that writes nothing: used to replay a stored violation by re-running the deterministic case stream"""
+
+    def __init__(self, prop, tier, seed):
+        super().__init__(prop, tier, seed)
+        self.seen = []
+
+    def violation(self, key, what, replay, no_input=False):
+        for e in self.known:
+            if e.get('status', 'open') == 'open' and e['key'] == key:
+                return
+        self.violations += 1
+        self.seen.append((key, digest(replay.get('input', replay))))
+
+    def finish(self, proof, extra_assumptions=()):
+        return 1 if self.violations else 0
+
+
+def replay_by_rerun(prop: str, data: dict, run) -> int:
+    """All inputs of a check derive from one PRNG (seed, property, stream): the stored violation is replayed by running the
+    same tier with the same seed and looking for the same failure signature on the same input. Exit 1 = it fails again."""
+    seed, tier = int(data.get('seed', 0)), data.get('tier', 'quick')
+    rep = ScratchReport(prop, tier, seed)
+    fresh_cwd(prop)
+    run(rep, tier, seed)
+    want_key = data.get('key')
+    want_in = digest(data['input']) if 'input' in data else None
+    same_key = [k for k, _ in rep.seen if k == want_key]
+    same_input = [k for k, d in rep.seen if k == want_key and (want_in is None or d == want_in)]
+    print(f'replay: seed={seed} tier={tier}: {len(rep.seen)} violation(s); signature {want_key!r} seen {len(same_key)} time(s), '
+          f'on the stored input {len(same_input)} time(s)')
+    print('replay:', 'FAILS' if same_key else 'passes')
+    return 1 if same_key else 0
+
+
 def digest(obj) -> str:
     return hashlib.sha1(json.dumps(obj, sort_keys=True, default=str).encode()).hexdigest()
 
